@@ -45,15 +45,18 @@ RULE = ("one run = one seeded history (15-120 operations) on a stored "
         "the commit, set of structural transition classes inside the "
         "transaction, how the transaction ended) tuples")
 TECHNIQUE = ("deterministic simulation of writer / storage / fresh reader "
-             "with seeded commit, abort, crash and cache-eviction points; "
+             "with seeded commit, abort, crash, cache-eviction and "
+             "failing-operation (comparison / allocation) points; "
              "reader-vs-writer and record-vs-memory oracles")
 LEVEL_TEXT = ("Seeded histories on stored containers (all families, 4 kinds, "
               "both implementations, reader of the same or the other "
               "implementation, small and default node sizes, root object or "
               "value of another stored container) cut into transactions at "
               "arbitrary points with commit / abort / writer crash / crash "
-              "between vote and finish and cache sweeps; fresh-reader and "
-              "record-vs-memory oracles. Sampling.")
+              "between vote and finish and cache sweeps, and with writes that "
+              "fail half-way (n-th key comparison raises, n-th allocation "
+              "fails, also inside a node load); user subclasses; fresh-reader "
+              "and record-vs-memory oracles. Sampling.")
 ASSUMPTIONS = ["commit writes exactly the objects that called register() "
                "plus objects newly reachable from them (ZODB's rule)"]
 
